@@ -84,6 +84,7 @@ type expField struct {
 }
 
 type expStruct struct {
+	Obj    string     `json:"obj"`
 	Name   string     `json:"name"`
 	Key    string     `json:"key"`
 	Fields []expField `json:"fields"`
@@ -158,9 +159,99 @@ func titleOf(s string) string {
 	return string(r)
 }
 
-func keyOf(s string) string { return strings.ToLower(s) }
+func fold(s string) string { return strings.ToLower(s) }
+
+// keyCtx counts, per lower-cased form, the distinct names of one map of the document.
+type keyCtx map[string]int
+
+func ctxOf(names []string) keyCtx {
+	seen := map[string]bool{}
+	c := keyCtx{}
+	for _, n := range names {
+		if !seen[n] {
+			seen[n] = true
+			c[fold(n)]++
+		}
+	}
+	return c
+}
+
+// keyIn is the key rule of Codegen.tla: the lower-cased identifier, unless the same map holds
+// another name with the same lower-cased form - then the title-cased identifier.
+func keyIn(s string, c keyCtx) string {
+	if c[fold(s)] >= 2 {
+		return titleOf(s)
+	}
+	return fold(s)
+}
+
+// docKeys: the context of the object names, and per object key the context of the property names
+// (the properties of all objects sharing that key: foo / Foo are one group).
+func docKeys(doc []objT) (keyCtx, map[string]keyCtx) {
+	var names []string
+	for _, o := range doc {
+		names = append(names, o.Name)
+	}
+	oc := ctxOf(names)
+	pn := map[string][]string{}
+	for _, o := range doc {
+		k := keyIn(o.Name, oc)
+		for _, p := range o.Props {
+			pn[k] = append(pn[k], p.Name)
+		}
+	}
+	pc := map[string]keyCtx{}
+	for _, o := range doc {
+		k := keyIn(o.Name, oc)
+		pc[k] = ctxOf(pn[k])
+	}
+	return oc, pc
+}
+
+// fillKeys computes title / key attributes of a generated document.
+func fillKeys(doc []objT) {
+	for i := range doc {
+		doc[i].Title = titleOf(doc[i].Name)
+		for k := range doc[i].Props {
+			doc[i].Props[k].Title = titleOf(doc[i].Props[k].Name)
+		}
+	}
+	oc, pc := docKeys(doc)
+	for i := range doc {
+		doc[i].Key = keyIn(doc[i].Name, oc)
+		for k := range doc[i].Props {
+			doc[i].Props[k].Key = keyIn(doc[i].Props[k].Name, pc[doc[i].Key])
+		}
+	}
+}
+
+// assignKeys gives the observed structs and fields their keys under the document's key rule.
+func assignKeys(structs []obsStruct, doc []objT) {
+	oc, pc := docKeys(doc)
+	for i := range structs {
+		structs[i].Key = keyIn(structs[i].Name, oc)
+		c := pc[structs[i].Key] // nil (plain lower-casing) for a struct that belongs to no object
+		for m := range structs[i].Fields {
+			structs[i].Fields[m].Key = keyIn(structs[i].Fields[m].Name, c)
+		}
+	}
+}
 
 func validIdent(s string) bool { return token.IsIdentifier(s) } // letters/digits/_ , not a keyword
+
+func caseVariants(doc []objT) bool {
+	for _, o := range doc {
+		if o.Key == o.Title {
+			return true
+		}
+		for _, p := range o.Props {
+			if p.Key == p.Title {
+				return true
+			}
+		}
+	}
+	return false
+}
 
 func shapeOf(doc []objT) string {
 	if len(doc) == 0 {
@@ -168,6 +259,9 @@ func shapeOf(doc []objT) string {
 	}
 	if len(doc) == 1 && len(doc[0].Props) <= 1 {
 		return "single"
+	}
+	if caseVariants(doc) {
+		return "multi_casevariant"
 	}
 	return "multi"
 }
@@ -186,22 +280,34 @@ func checkDoc(doc []objT, args argsT) string {
 	for _, t := range sdkTypeIDs {
 		known[t] = true
 	}
-	chk := func(what, name, title, key string) string {
+	chk := func(what, name, title, key, wantKey string) string {
 		if !validIdent(name) {
 			return fmt.Sprintf("%s name %q is not a Go identifier (the property's premise)", what, name)
 		}
-		if title != titleOf(name) || key != keyOf(name) {
+		if title != titleOf(name) || key != wantKey {
 			return fmt.Sprintf("%s %q: specification has title %q key %q, standard library gives %q %q",
-				what, name, title, key, titleOf(name), keyOf(name))
+				what, name, title, key, titleOf(name), wantKey)
 		}
 		return ""
 	}
+	oc, pc := docKeys(doc)
+	onames := map[string]bool{}
 	for _, o := range doc {
-		if e := chk("object", o.Name, o.Title, o.Key); e != "" {
+		if onames[o.Name] {
+			return fmt.Sprintf("object name %q occurs twice", o.Name)
+		}
+		onames[o.Name] = true
+		ok := keyIn(o.Name, oc)
+		if e := chk("object", o.Name, o.Title, o.Key, ok); e != "" {
 			return e
 		}
+		pnames := map[string]bool{}
 		for _, p := range o.Props {
-			if e := chk("property", p.Name, p.Title, p.Key); e != "" {
+			if pnames[p.Name] {
+				return fmt.Sprintf("property name %q occurs twice in %q", p.Name, o.Name)
+			}
+			pnames[p.Name] = true
+			if e := chk("property", p.Name, p.Title, p.Key, keyIn(p.Name, pc[ok])); e != "" {
 				return e
 			}
 			if !known[p.Tid] {
@@ -541,7 +647,7 @@ func extract(src []byte) (structs []obsStruct, other []string, perr string) {
 				other = append(other, "type "+ts.Name.Name)
 				continue
 			}
-			os_ := obsStruct{Name: ts.Name.Name, Key: keyOf(ts.Name.Name), Fields: []obsField{}}
+			os_ := obsStruct{Name: ts.Name.Name, Fields: []obsField{}}
 			for _, fl := range st.Fields.List {
 				typ := types.ExprString(fl.Type)
 				tag := ""
@@ -560,7 +666,7 @@ func extract(src []byte) (structs []obsStruct, other []string, perr string) {
 					names = []string{strings.TrimPrefix(typ, "*")}
 				}
 				for _, n := range names {
-					os_.Fields = append(os_.Fields, obsField{Name: n, Key: keyOf(n), Tag: tag, Type: typ})
+					os_.Fields = append(os_.Fields, obsField{Name: n, Tag: tag, Type: typ})
 				}
 			}
 			structs = append(structs, os_)
@@ -573,167 +679,305 @@ func extract(src []byte) (structs []obsStruct, other []string, perr string) {
 // (mirrors Codegen!Verdict; the expectation itself - which structs, fields, tags, types - is the
 // specification's)
 
+// perms calls f with every permutation of 0..n-1 until f returns true.
+func perms(n int, f func([]int) bool) bool {
+	idx := make([]int, n)
+	for i := range idx {
+		idx[i] = i
+	}
+	var rec func(k int) bool
+	rec = func(k int) bool {
+		if k == n {
+			return f(idx)
+		}
+		for i := k; i < n; i++ {
+			idx[k], idx[i] = idx[i], idx[k]
+			if rec(k + 1) {
+				return true
+			}
+			idx[k], idx[i] = idx[i], idx[k]
+		}
+		return false
+	}
+	return rec(0)
+}
+
+func typeOK(ef expField, f obsField) bool {
+	if ef.Free {
+		return true
+	}
+	for _, t := range ef.Types {
+		if t == f.Type {
+			return true
+		}
+	}
+	return false
+}
+
+// fieldVerdict mirrors Codegen!FieldVerdict: properties and fields of one key are matched one to one.
 func fieldVerdict(o objT, e expStruct, s obsStruct) (string, string) {
-	hits := func(k string) []obsField {
-		var r []obsField
-		for _, f := range s.Fields {
-			if f.Key == k {
-				r = append(r, f)
+	P, F := map[string][]expField{}, map[string][]obsField{}
+	var keys []string
+	add := func(k string) {
+		if _, ok := P[k]; !ok {
+			if _, ok2 := F[k]; !ok2 {
+				keys = append(keys, k)
 			}
 		}
-		return r
 	}
 	for _, ef := range e.Fields {
-		if len(hits(ef.Key)) == 0 {
+		add(ef.Key)
+		P[ef.Key] = append(P[ef.Key], ef)
+	}
+	for _, f := range s.Fields {
+		add(f.Key)
+		F[f.Key] = append(F[f.Key], f)
+	}
+	for _, k := range keys {
+		if len(F[k]) < len(P[k]) {
 			return "missing_field", ""
 		}
 	}
-	for _, f := range s.Fields {
-		found := false
-		for _, ef := range e.Fields {
-			found = found || ef.Key == f.Key
-		}
-		if !found {
+	for _, k := range keys {
+		if len(P[k]) == 0 {
 			return "extra_field", ""
 		}
 	}
-	for _, ef := range e.Fields {
-		if len(hits(ef.Key)) > 1 {
+	for _, k := range keys {
+		if len(F[k]) > len(P[k]) {
 			return "duplicate_field", ""
 		}
 	}
-	for _, ef := range e.Fields {
-		if hits(ef.Key)[0].Tag != ef.Tag {
-			return "wrong_tag", ""
-		}
-	}
-	for _, ef := range e.Fields {
-		if ef.Free {
-			continue
-		}
-		ok := false
-		for _, t := range ef.Types {
-			ok = ok || t == hits(ef.Key)[0].Type
-		}
-		if !ok {
-			for _, p := range o.Props {
-				if p.Key == ef.Key {
-					return "wrong_field_type", p.Tid
+	verdict, detail := "ok", ""
+	for _, k := range keys {
+		p, f := P[k], F[k]
+		if perms(len(p), func(ix []int) bool {
+			for i := range p {
+				if f[ix[i]].Tag != p[i].Tag || !typeOK(p[i], f[ix[i]]) {
+					return false
 				}
 			}
-			return "wrong_field_type", ""
+			return true
+		}) {
+			continue
 		}
-	}
-	return "ok", ""
-}
-
-func structVerdict(doc []objT, args argsT, exp []expStruct, obs []obsStruct) (string, string) {
-	count := func(k string) int {
-		n := 0
-		for _, s := range obs {
-			if s.Key == k {
-				n++
+		tagsOK := perms(len(p), func(ix []int) bool {
+			for i := range p {
+				if f[ix[i]].Tag != p[i].Tag {
+					return false
+				}
 			}
+			return true
+		})
+		if !tagsOK {
+			return "wrong_tag", ""
 		}
-		return n
-	}
-	for _, e := range exp {
-		if count(e.Key) == 0 {
-			return "missing_struct", ""
-		}
-	}
-	for _, o := range doc {
-		if args.Form == "with_ignore" && o.Name == args.Ign && count(o.Key) > 0 {
-			return "ignored_struct_emitted", ""
-		}
-	}
-	for _, s := range obs {
-		found := false
-		for _, e := range exp {
-			found = found || e.Key == s.Key
-		}
-		if !found {
-			return "extra_struct", ""
-		}
-	}
-	for _, e := range exp {
-		if count(e.Key) > 1 {
-			return "duplicate_struct", ""
-		}
-	}
-	// first offending struct in document order
-	for _, o := range doc {
-		for _, e := range exp {
-			if e.Key != o.Key {
-				continue
-			}
-			for _, s := range obs {
-				if s.Key == e.Key {
-					if c, d := fieldVerdict(o, e, s); c != "ok" {
-						return c, d
+		if verdict == "ok" {
+			verdict = "wrong_field_type"
+			for _, ef := range p {
+				for _, of := range f {
+					if of.Tag == ef.Tag && !typeOK(ef, of) && detail == "" {
+						for _, pr := range o.Props {
+							if pr.Name == ef.Tag {
+								detail = pr.Tid
+							}
+						}
 					}
 				}
 			}
+		}
+	}
+	return verdict, detail
+}
+
+// structVerdict mirrors Codegen!Verdict: objects and structs of one key are matched one to one.
+func structVerdict(doc []objT, args argsT, exp []expStruct, obs []obsStruct) (string, string) {
+	L, O := map[string][]expStruct{}, map[string][]obsStruct{}
+	var keys []string
+	seen := map[string]bool{}
+	for _, e := range exp {
+		if !seen[e.Key] {
+			seen[e.Key] = true
+			keys = append(keys, e.Key)
+		}
+		L[e.Key] = append(L[e.Key], e)
+	}
+	for _, s := range obs {
+		if !seen[s.Key] {
+			seen[s.Key] = true
+			keys = append(keys, s.Key)
+		}
+		O[s.Key] = append(O[s.Key], s)
+	}
+	ign := map[string]bool{}
+	byName := map[string]objT{}
+	for _, o := range doc {
+		byName[o.Name] = o
+		if args.Form == "with_ignore" && o.Name == args.Ign {
+			ign[o.Key] = true
+		}
+	}
+	for _, k := range keys {
+		if len(O[k]) < len(L[k]) {
+			return "missing_struct", ""
+		}
+	}
+	over := false
+	for _, k := range keys {
+		if len(O[k]) > len(L[k]) && ign[k] {
+			return "ignored_struct_emitted", ""
+		}
+		over = over || len(O[k]) > len(L[k])
+	}
+	for _, k := range keys {
+		if len(O[k]) > len(L[k]) && len(L[k]) == 0 {
+			return "extra_struct", ""
+		}
+	}
+	if over {
+		return "duplicate_struct", ""
+	}
+	// objects for which no struct of their key has the right fields, in document order
+	for _, o := range doc {
+		for _, e := range exp {
+			if e.Obj != o.Name {
+				continue
+			}
+			good := false
+			for _, s := range O[e.Key] {
+				c, _ := fieldVerdict(o, e, s)
+				good = good || c == "ok"
+			}
+			if !good {
+				return fieldVerdict(o, e, O[e.Key][0])
+			}
+		}
+	}
+	for _, k := range keys {
+		l, ob := L[k], O[k]
+		if !perms(len(l), func(ix []int) bool {
+			for i := range l {
+				if c, _ := fieldVerdict(byName[l[i].Obj], l[i], ob[ix[i]]); c != "ok" {
+					return false
+				}
+			}
+			return true
+		}) {
+			return "wrong_field_type", "" // structs of one key with their fields swapped
 		}
 	}
 	return "ok", ""
 }
 
 func nameDrift(exp []expStruct, obs []obsStruct) string {
-	for _, e := range exp {
-		for _, s := range obs {
-			if s.Key != e.Key {
-				continue
+	for _, s := range obs {
+		var cands []expStruct
+		for _, e := range exp {
+			if e.Key == s.Key {
+				cands = append(cands, e)
 			}
-			if s.Name != e.Name {
-				return fmt.Sprintf("struct %q spelled %q", e.Name, s.Name)
-			}
-			for _, ef := range e.Fields {
-				for _, f := range s.Fields {
-					if f.Key == ef.Key && f.Name != ef.Name {
-						return fmt.Sprintf("field %q spelled %q", ef.Name, f.Name)
+		}
+		if len(cands) == 0 {
+			continue
+		}
+		nameOK := false
+		for _, e := range cands {
+			nameOK = nameOK || e.Name == s.Name
+		}
+		if !nameOK {
+			return fmt.Sprintf("struct %q spelled %q", cands[0].Name, s.Name)
+		}
+		fieldsOK := false
+		what := ""
+		for _, e := range cands {
+			ok := true
+			for _, f := range s.Fields {
+				has, hit := false, false
+				for _, ef := range e.Fields {
+					if ef.Key == f.Key {
+						has = true
+						hit = hit || ef.Name == f.Name
 					}
 				}
+				if has && !hit {
+					ok = false
+					what = fmt.Sprintf("field of %q spelled %q", e.Name, f.Name)
+				}
 			}
+			fieldsOK = fieldsOK || ok
+		}
+		if !fieldsOK {
+			return what
+		}
+	}
+	return ""
+}
+
+// duplicateNames: two type declarations, or two fields of one struct, with one name (parses,
+// is gofmt-valid, does not compile)
+func duplicateNames(obs []obsStruct) string {
+	seen := map[string]bool{}
+	for _, s := range obs {
+		if seen[s.Name] {
+			return "type " + s.Name + " declared twice"
+		}
+		seen[s.Name] = true
+		fs := map[string]bool{}
+		for _, f := range s.Fields {
+			if fs[f.Name] {
+				return "field " + s.Name + "." + f.Name + " declared twice"
+			}
+			fs[f.Name] = true
 		}
 	}
 	return ""
 }
 
 // ------------------------------------------------------------------ what differs between two outputs
+// (structs are told apart by name and field tags, fields by their tag: names may coincide)
 
-func structNames(a []obsStruct) []string {
+func fieldTags(s obsStruct) []string {
 	r := []string{}
-	for _, s := range a {
-		r = append(r, s.Name)
+	for _, f := range s.Fields {
+		r = append(r, f.Tag)
 	}
 	return r
 }
 
-func fieldNames(s obsStruct) []string {
+func structID(s obsStruct) string {
+	t := fieldTags(s)
+	sort.Strings(t)
+	return s.Name + "{" + strings.Join(t, ",") + "}"
+}
+
+func structIDs(a []obsStruct) []string {
 	r := []string{}
-	for _, f := range s.Fields {
-		r = append(r, f.Name)
+	for _, s := range a {
+		r = append(r, structID(s))
 	}
 	return r
 }
 
 func sameSet(a, b []string) bool {
-	x, y := append([]string{}, a...), append([]string{}, b...)
-	sort.Strings(x)
-	sort.Strings(y)
+	x, y := map[string]bool{}, map[string]bool{}
+	for _, v := range a {
+		x[v] = true
+	}
+	for _, v := range b {
+		y[v] = true
+	}
 	return reflect.DeepEqual(x, y)
 }
 
 func diffDetails(a, b []obsStruct) []string {
 	var d []string
-	if !reflect.DeepEqual(structNames(a), structNames(b)) && sameSet(structNames(a), structNames(b)) {
+	if !reflect.DeepEqual(structIDs(a), structIDs(b)) && sameSet(structIDs(a), structIDs(b)) {
 		d = append(d, "struct_order")
 	}
 	fo := false
 	for _, x := range a {
 		for _, y := range b {
-			if x.Name == y.Name && !reflect.DeepEqual(fieldNames(x), fieldNames(y)) && sameSet(fieldNames(x), fieldNames(y)) {
+			if structID(x) == structID(y) && !reflect.DeepEqual(fieldTags(x), fieldTags(y)) {
 				fo = true
 			}
 		}
@@ -819,6 +1063,7 @@ func runInput(c inputT, r *resT) {
 			break
 		}
 		o := runOnce(dir, c.args)
+		assignKeys(o.Structs, c.doc)
 		r.Evals++
 		switch {
 		case o.Hang:
@@ -888,6 +1133,11 @@ func runInput(c inputT, r *resT) {
 		}
 		if len(o.Other) > 0 {
 			once("other_declarations", "", map[string]any{"run": k, "decls": o.Other}, true)
+		}
+		if dn := duplicateNames(o.Structs); dn != "" {
+			// names that differ in the first letter's case only are inside the premise; that their
+			// structs / fields get one Go name is not excluded by the statement -> drift
+			once("duplicate_names", "", map[string]any{"run": k, "what": dn}, true)
 		}
 	}
 	if len(variants) > r.MaxVariants {
@@ -962,6 +1212,8 @@ const lower = "abcdefghijklmnopqrstuvwxyz"
 const upper = "ABCDEFGHIJKLMNOPQRSTUVWXYZ"
 const rest = lower + upper + "0123456789_"
 
+// genName returns a fresh identifier; used holds the lower-cased forms already taken, so that
+// names from here differ in more than capitalisation (case variants are made by genVariant).
 func genName(rng *rand.Rand, used map[string]bool) string {
 	for {
 		var s string
@@ -979,12 +1231,50 @@ func genName(rng *rand.Rand, used map[string]bool) string {
 			}
 			s = b.String()
 		}
-		if !validIdent(s) || used[keyOf(s)] {
+		if !validIdent(s) || used[fold(s)] {
 			continue
 		}
-		used[keyOf(s)] = true
+		used[fold(s)] = true
 		return s
 	}
+}
+
+// genVariant returns an identifier that differs from one of the given names in the case of one
+// letter only (podIP / podIp; with the first letter: foo / Foo) and is none of them, or "".
+func genVariant(rng *rand.Rand, names []string) string {
+	if len(names) == 0 {
+		return ""
+	}
+	taken := map[string]bool{}
+	for _, n := range names {
+		taken[n] = true
+	}
+	for try := 0; try < 20; try++ {
+		r := []rune(names[rng.Intn(len(names))])
+		var pos []int
+		for i, c := range r {
+			if unicode.ToUpper(c) != unicode.ToLower(c) {
+				pos = append(pos, i)
+			}
+		}
+		if len(pos) == 0 {
+			continue
+		}
+		i := pos[rng.Intn(len(pos))]
+		if i == pos[0] && len(pos) > 1 && rng.Intn(3) != 0 { // the first letter (title collision) less often
+			i = pos[1+rng.Intn(len(pos)-1)]
+		}
+		if unicode.IsUpper(r[i]) {
+			r[i] = unicode.ToLower(r[i])
+		} else {
+			r[i] = unicode.ToUpper(r[i])
+		}
+		s := string(r)
+		if validIdent(s) && !taken[s] {
+			return s
+		}
+	}
+	return ""
 }
 
 func genCount(rng *rand.Rand, max int) int {
@@ -1004,17 +1294,33 @@ func genDoc(rng *rand.Rand, maxObjs, maxProps int) []objT {
 	n := genCount(rng, maxObjs)
 	used := map[string]bool{}
 	doc := make([]objT, 0, n)
+	var onames []string
 	for i := 0; i < n; i++ {
-		nm := genName(rng, used)
-		doc = append(doc, objT{Name: nm, Title: titleOf(nm), Key: keyOf(nm), Props: []propT{}})
+		nm := ""
+		if rng.Intn(4) == 0 {
+			nm = genVariant(rng, onames)
+		}
+		if nm == "" {
+			nm = genName(rng, used)
+		}
+		onames = append(onames, nm)
+		doc = append(doc, objT{Name: nm, Props: []propT{}})
 	}
 	outside := genName(rng, used)
 	for i := range doc {
 		m := genCount(rng, maxProps)
 		pu := map[string]bool{}
+		var pnames []string
 		for k := 0; k < m; k++ {
-			pn := genName(rng, pu)
-			p := propT{Name: pn, Title: titleOf(pn), Key: keyOf(pn), Tid: sdkTypeIDs[rng.Intn(len(sdkTypeIDs))]}
+			pn := ""
+			if rng.Intn(4) == 0 {
+				pn = genVariant(rng, pnames)
+			}
+			if pn == "" {
+				pn = genName(rng, pu)
+			}
+			pnames = append(pnames, pn)
+			p := propT{Name: pn, Tid: sdkTypeIDs[rng.Intn(len(sdkTypeIDs))]}
 			if p.Tid == "map" && rng.Intn(3) != 0 { // keep the keyword type ID rare: it masks everything else
 				p.Tid = "list"
 			}
@@ -1029,6 +1335,7 @@ func genDoc(rng *rand.Rand, maxObjs, maxProps int) []objT {
 			doc[i].Props = append(doc[i].Props, p)
 		}
 	}
+	fillKeys(doc)
 	return doc
 }
 
@@ -1040,7 +1347,7 @@ func runRand(c caseT, r *resT) {
 		style := styles[rng.Intn(len(styles))]
 		used := map[string]bool{}
 		for _, o := range doc {
-			used[o.Key] = true
+			used[fold(o.Name)] = true
 		}
 		forms := []argsT{{Form: "no_ignore", Ign: ""}, {Form: "with_ignore", Ign: genName(rng, used)}}
 		if len(doc) > 0 {
